@@ -677,3 +677,46 @@ pub fn lat_pair(rng: &mut Rng) -> (Vec<(Vec<P>, Vec<Vec<P>>)>, Vec<(Vec<P>, Vec<
         return (vec![(sc(&a), vec![])], vec![(sc(&b), vec![])]);
     }
 }
+
+// ------------------------------------------------------------------------------------------
+// family "fan": two triangles that touch only in a common apex O, with edges OP and OQ in
+// ADJACENT FAREY DIRECTIONS (cross(P-O, Q-O) = 1 with |P-O|, |Q-O| in the thousands): the
+// thinnest wedge the integer domain can express. No intersection point has to be computed; the
+// orientation tests decide everything, and in f32 every product involved rounds.
+fn egcd(a: i64, b: i64) -> (i64, i64, i64) {
+    if b == 0 {
+        (a, 1, 0)
+    } else {
+        let (g, x, y) = egcd(b, a % b);
+        (g, y, x - (a / b) * y)
+    }
+}
+pub fn fan_pair(rng: &mut Rng) -> (Vec<(Vec<P>, Vec<Vec<P>>)>, Vec<(Vec<P>, Vec<Vec<P>>)>) {
+    loop {
+        let (a, b) = (rng.range(900, 7700), rng.range(900, 7700));
+        let (g, x, y) = egcd(a, b);
+        if g != 1 {
+            continue;
+        }
+        // a*d - b*c = 1  with (c, d) = (-y, x) + t*(a, b)
+        let (mut c, mut d) = (-y, x);
+        let t = if c < 0 || d < 0 { 1 + (-c.min(d)).max(0) / a.min(b) } else { 0 };
+        c += t * a;
+        d += t * b;
+        if a * d - b * c != 1 || c <= 0 || d <= 0 || c > 7800 || d > 7800 {
+            continue;
+        }
+        if 3900 - a.max(c) - 60 < -3900 || 3900 - b.max(d) - 60 < -3850 {
+            continue;
+        }
+        let o = (rng.range(-3900, 3900 - a.max(c) - 60), rng.range(-3850, 3900 - b.max(d) - 60));
+        let p = (o.0 + a, o.1 + b);
+        let q = (o.0 + c, o.1 + d);
+        let below = vec![o, (p.0, -3990), p];
+        let above = vec![o, q, (o.0 + rng.range(1, 40), 3990)];
+        if area2(&below) <= 0 || area2(&above) <= 0 {
+            continue;
+        }
+        return (vec![(below, vec![])], vec![(above, vec![])]);
+    }
+}
